@@ -23,9 +23,14 @@ type Execution struct {
 }
 
 func NewExecution(query promql.Query, pool *model.VectorPool, opts *query.Options) *Execution {
+	// The remote result has a point for every step at which the remote engine
+	// produced a sample. It must be read back as is: applying the lookback delta
+	// again would extend every series past its last point.
+	selectOpts := *opts
+	selectOpts.LookbackDelta = 0
 	return &Execution{
 		query:          query,
-		vectorSelector: scan.NewVectorSelector(pool, newStorageFromQuery(query), opts, 0, 0, 1),
+		vectorSelector: scan.NewVectorSelector(pool, newStorageFromQuery(query), &selectOpts, 0, 0, 1),
 	}
 }
 
